@@ -28,6 +28,16 @@ func c16(c *Ctx) {
 	}
 	frameHistories(c, n, 1600, false, "Cases.v")
 	redeclaredFrames(c)
+	// a function refused because its frame cannot hold the base pointer slot (NOFRAME under pressure, NOFRAME
+	// writing BP) stays refused when other functions of the file are fine
+	{
+		brng := NewRNG(c.Seed + 1660)
+		ps := pipelineCorpus()
+		for k := 0; k < 120; k++ {
+			ps = append(ps, genBPProg(brng))
+		}
+		multiFunctionFiles(c.Out, ps, "frame", 40)
+	}
 	rule := c.Out.Plan.Rule
 	// addressing a local with an index register: the compiled code must keep the index apart from the other
 	// live values (pipeline validators of C01 on programs of that shape)
